@@ -14,6 +14,7 @@ from genlm.grammar.wfsa import base
 
 ID = "C10"
 LEVEL = "model_checking"
+CASE_HARD_TIMEOUT = 900  # thorough-tier interleaved histories take ~1-2 min per pool on a loaded machine
 TIER = "quick"
 EPS = ""
 LABELS = [("a", "a"), ("a", "b"), ("b", "a"), ("a", EPS), (EPS, "a"), (EPS, EPS)]
